@@ -122,6 +122,9 @@ Begin(s, n, pr, r) ==        \* handleNewProxy starts
                               pc |-> IF MaxQuota > 0 THEN "quota" ELSE "exist", port |-> 0, err |-> None]]
   /\ UNCHANGED <<free, used, reserved, osb, quota, names, tbl, alive, late, lastReply, devUsed>>
 
+\* where a failed registration continues: the deferred quota rollback only exists when a quota is configured
+FailPc == IF MaxQuota > 0 THEN "qrollback" ELSE "reply"
+
 Quota(s) ==                  \* check-and-add under ctl.mu
   /\ op[s].kind = "reg" /\ op[s].pc = "quota"
   /\ IF quota[s] + 1 > MaxQuota
@@ -134,7 +137,7 @@ Quota(s) ==                  \* check-and-add under ctl.mu
 Exist(s) ==                  \* pxyManager.Exist
   /\ op[s].kind = "reg" /\ op[s].pc = "exist"
   /\ IF names[op[s].name] # None
-     THEN op' = [op EXCEPT ![s].pc = "qrollback", ![s].err = "exists"]
+     THEN op' = [op EXCEPT ![s].pc = FailPc, ![s].err = "exists"]
      ELSE op' = [op EXCEPT ![s].pc = "acquire"]
   /\ UNCHANGED <<free, used, reserved, osb, quota, names, tbl, alive, late, lastReply, devUsed>>
 
@@ -146,7 +149,7 @@ Acquire(s, res) ==           \* ports.Manager.Acquire under pm.mu
         THEN /\ Grant(pr, n, res)
              /\ op' = [op EXCEPT ![s].pc = "listen", ![s].port = res]
              /\ devUsed' = IF op[s].req = 0 /\ ReservedHitDev(pr, n) THEN devUsed \cup {"ReservedIgnoresFree"} ELSE devUsed
-        ELSE /\ op' = [op EXCEPT ![s].pc = "qrollback", ![s].err = ErrName(res)]
+        ELSE /\ op' = [op EXCEPT ![s].pc = FailPc, ![s].err = ErrName(res)]
              /\ UNCHANGED <<free, used, reserved, devUsed>>
   /\ UNCHANGED <<osb, quota, names, tbl, alive, late, lastReply>>
 
@@ -163,7 +166,7 @@ Listen(s) ==                 \* net.Listen / net.ListenUDP, no lock
 Release(s) ==                \* deferred Release in Run, or the Release inside Close
   /\ op[s].kind = "reg" /\ op[s].pc = "release"
   /\ DoRelease(op[s].proto, op[s].port)
-  /\ op' = [op EXCEPT ![s].pc = "qrollback"]
+  /\ op' = [op EXCEPT ![s].pc = FailPc]
   /\ UNCHANGED <<reserved, osb, quota, names, tbl, alive, late, lastReply, devUsed>>
 
 Add(s) ==                    \* pxyManager.Add under its lock
